@@ -27,6 +27,11 @@ static struct ext exts[256];
 static int nexts;
 static MIR_item_t protos[4096];
 static int nprotos;
+/* where each data-like item landed (machine-readable comment lines "mirdump-item ...", used by C01 to let lifted
+   machine code and the interpreter share the section arrays) */
+struct ditem { MIR_item_t item; int sec; size_t off, size; const char *mod; };
+static struct ditem ditems[4096];
+static int nditems;
 
 static void *resolver (const char *name) {
   for (int i = 0; i < nexts; i++)
@@ -183,6 +188,7 @@ int main (int argc, char **argv) {
         char *a = it->addr;
         if (nsecs > 0 && secs[nsecs - 1].addr + secs[nsecs - 1].size == a && !it->section_head_p) secs[nsecs - 1].size += sz;
         else { secs[nsecs].addr = a; secs[nsecs].size = sz; secs[nsecs].id = nsecs; nsecs++; }
+        if (nditems < 4096) { ditems[nditems].item = it; ditems[nditems].sec = nsecs - 1; ditems[nditems].off = (size_t) (a - secs[nsecs - 1].addr); ditems[nditems].size = sz; ditems[nditems].mod = m->name; nditems++; }
       }
     }
   struct interp_ctx *interp_ctx = ctx->interp_ctx;
@@ -202,6 +208,14 @@ int main (int argc, char **argv) {
     fprintf (out, "static uint8_t %ssec%d[%zu] __attribute__ ((aligned (16))) = {", P, i, secs[i].size ? secs[i].size : 1);
     for (size_t k = 0; k < secs[i].size; k++) fprintf (out, "%u,", (unsigned) (uint8_t) secs[i].addr[k]);
     fprintf (out, "};\n");
+  }
+  for (int i = 0; i < nditems; i++) {
+    MIR_item_t it = ditems[i].item;
+    const char *nm = it->item_type == MIR_data_item ? it->u.data->name : it->item_type == MIR_bss_item ? it->u.bss->name
+                     : it->item_type == MIR_ref_data_item ? it->u.ref_data->name : it->item_type == MIR_lref_data_item ? it->u.lref_data->name
+                     : it->u.expr_data->name;
+    fprintf (out, "/* mirdump-item module=%s name=%s sec=%d off=%zu size=%zu type=%s */\n", ditems[i].mod, nm == NULL ? "-" : nm, ditems[i].sec,
+             ditems[i].off, ditems[i].size, it->item_type == MIR_data_item ? tname (it->u.data->el_type) : "-");
   }
   /* functions first need protos: walk code once to register protos used */
   for (int i = 0; i < nfns; i++) {
